@@ -262,7 +262,7 @@ def files(ctx: Ctx):
                 t0 = d['targetons'][0]
                 L = t0['ref_end'] - t0['ref_start'] + 1
             L += len(d['opts'].get('adaptor5') or '') + len(d['opts'].get('adaptor3') or '')
-            d['opts']['min_length'] = L - ctx.rng.choice([0, 0, 1, 2])       # most deletion rows are too short, none too long
+            d['opts']['min_length'] = max(1, L - ctx.rng.choice([0, 0, 1, 2]))       # most deletion rows are too short, none too long (a limit below 1 is an invalid configuration)
             if ctx.rng.random() < 0.3:
                 d['opts']['max_length'] = L
     results = pool_map(design_case, designs)
